@@ -59,6 +59,11 @@ NEEDS = {
  "c20-fill_tags-before-wsconst-filters": "predict --predict-tags --wsconst X (normalising mode): the filter removes a predicted boundary and the right-hand piece is a word the tag model knows",
  "c20-evaluate-matched-not-reset": "evaluate --metric word: a sentence whose last word is wrong directly followed by a sentence whose first word is right",
  "c20-no-norm-score-blocks-swapped": "predict --no-norm --predict-tags --scores --tag-scores on any accepted line",
+ "c05-predictor-link-kept-after-megasentence": "a predicted sentence of more than ~1 048 564 characters, then any update_*, then fill_tags without a new predict",
+ "c08-recycle-keeps-tags-after-1MiB-text": "a tagged sentence of more than 2^20 bytes, then update_raw(x) and predict without tag fill",
+ "c07-read-decode-limit-64MiB": "a model whose in-memory size exceeds 64 MiB (about 1.4 million n-grams, a 20-35 MB file), loaded with Model::read",
+ "c17-state-keeps-first-output-only": "a KyTea trie in which a non-entry state carries suffix outputs",
+ "c20-line-limit-16MiB-splits-lines": "an input line longer than 16 MiB",
  "c20-line-cache-stale-index-after-4096": "one predict process: a line, then more than 4096 distinct lines, then the first line again",
 }
 res = {}
